@@ -47,12 +47,13 @@ func GenerateConcurrent(bitsize int, stop chan struct{}) (<-chan *big.Int, <-cha
 					return
 				}
 
-				// Only send result and continue generating if we have not been told to stop
+				// Only send result and continue generating if we have not been told to stop.
+				// The send itself must be abandoned on stop as well: once the caller has what it
+				// needs it stops reading, and a worker blocked on a full channel would never exit.
 				select {
 				case <-stopped:
 					return
-				default:
-					ints <- x
+				case ints <- x:
 					continue
 				}
 			}
